@@ -121,6 +121,9 @@ class CallMixin:
                 if eff is not None:
                     for e in eff([a.kinds for a in args]):
                         self.raise_(e, f".{func.attr}() at {self.cv.label()}:{node.lineno}")
+                    rk = LIB_METHOD_RETURNS.get(func.attr)
+                    if rk and recv.kinds is not None and recv.lit:
+                        return Val(kinds=FS({rk}), lit=True)
                 elif func.attr not in ("get", "pop", "clone", "items", "add", "update", "insert", "load_values",
                                        "load_annotations", "nested_activation", "parent_iter", "visit", "statements",
                                        "transpile", "cmdloop", "parse", "get_context", "read_text", "evaluate",
